@@ -124,6 +124,52 @@ theorem C18_sibling_choice (siblings : List Coding) (ae : Bytes) (c : Coding)
   simp only [Bool.and_eq_true] at this
   exact ⟨offers_of_lists ae c this.1, this.2⟩
 
+/-- Range requests on static files: partial content of the representation the file server
+picked, never encoded again, compressed on the fly only for a client that offers gzip, with a
+Content-Length that is absent or the length of the part (the slice itself is checked against the
+files by the stream, hence `true` here). -/
+theorem C18_range_model_verdict_ok (blocks : List Block) (path ae : Bytes) (siblings : List Coding)
+    (sendSize : Nat) (cr : String) :
+    rangeVerdict ae (observe (gzipRun blocks path ae (rangeInner siblings ae sendSize)))
+      (observe (plainRun (rangeInner siblings ae sendSize))) cr cr true true = "ok" := by
+  have hp : plainRun (rangeInner siblings ae sendSize) =
+      { status := 206, hdr := (rangeInner siblings ae sendSize).hdr,
+        body := (rangeInner siblings ae sendSize).body, blen := some sendSize } := by
+    unfold rangeInner
+    cases pickSibling siblings ae <;> simp [plainRun, plainStep, commit, finish]
+  have hoff : siblingOffered ae (rangeInner siblings ae sendSize).hdr.ce = true := by
+    unfold rangeInner
+    cases hpk : pickSibling siblings ae with
+    | none => simp [siblingOffered, unencoded]
+    | some c =>
+      have ho := (by
+        unfold pickSibling at hpk
+        have := List.find?_some hpk
+        simp only [Bool.and_eq_true] at this
+        exact offers_of_lists ae c this.1 : offersCoding ae c = true)
+      cases c <;> simp [siblingOffered, unencoded, Coding.name, identityB, ho]
+  have hcl : (rangeInner siblings ae sendSize).hdr.cl = some sendSize := by
+    unfold rangeInner; cases pickSibling siblings ae <;> rfl
+  rcases C18_decoded_equals_identity blocks path ae (rangeInner siblings ae sendSize) with h | ⟨h1, _, h3, h4, h5⟩
+  · rw [h, hp]
+    simp [rangeVerdict, observe, hcl, hoff]
+  · have hae : offersGzip ae = true := by
+      cases hoa : offersGzip ae with
+      | true => rfl
+      | false =>
+        have := C18_identity_when_not_offered blocks path ae (rangeInner siblings ae sendSize) hoa
+        rw [this] at h3
+        rw [hp] at h3 h4
+        simp only at h3 h4
+        rw [h3] at h4
+        revert h4; decide
+    rw [hp] at h1 h4
+    simp only at h1 h4
+    have hne : ¬ (Coding.gzip.name = (rangeInner siblings ae sendSize).hdr.ce) := by
+      intro heq; rw [← heq] at h4; revert h4; decide
+    rw [hp]
+    simp [rangeVerdict, observe, h1, h3, h5, hcl, hoff, hae, h4, hne]
+
 /-- The tables the decision depends on are the ones in the source (regenerated on every run):
 the static encodings and their order, the Content-Encoding values the skip filter lets through
 (so every static coding is skipped), the default extension list. -/
